@@ -523,7 +523,7 @@ def _rt_vol_shapes(tier):
     return out
 
 
-@scenario('C13', fns=['construct.extract_surfaces', 'construct.construct_volume', 'BSpline.Surface.ctrlpts2d',
+@scenario('C13', fns=['construct.extract_surfaces', 'construct.extract_isosurface', 'construct.construct_volume', 'BSpline.Surface.ctrlpts2d',
                       'abstract.Volume.data', 'abstract.Volume.ctrlpts', 'NURBS.Volume.ctrlpts', 'NURBS.Volume.weights',
                       'BSpline.Volume.evaluate_single', 'evaluators.VolumeEvaluator.evaluate'],
           quick=lambda: _rt_vol_shapes('quick'), thorough=lambda: _rt_vol_shapes('thorough'))
@@ -567,6 +567,11 @@ def volume_roundtrip(ctx, deg, m, rational, direction):
                 ctx.check_eq_vec('extract.%s[c].point(p,q)=V.point' % key, sf[spec.layout(p, q, 0, sizes[rest[0]], sizes[rest[1]])],
                                  Pw[spec.layout(ijk[0], ijk[1], ijk[2], su, sv)])
     ctx.check_eq_grid('extract.input_unchanged', _flat(vol, rational), Pw)
+    # the six boundary faces: first and last section across w, v, u (in that order)
+    faces = con.extract_isosurface(vol)
+    ctx.check_true('isosurface.count', len(faces) == 6)
+    for f, (fkey, which) in zip(faces, (('uv', 0), ('uv', -1), ('uw', 0), ('uw', -1), ('vw', 0), ('vw', -1))):
+        ctx.check_eq_grid('isosurface.%s[%d]=boundary_section' % (fkey, which), _flat(f, rational), _flat(es[fkey][which], rational))
     R = con.construct_volume(direction, *es[key], degree=deg[axis], knotvector=list(kvs[axis]))
     ctx.check_true('construct.rational', R.rational is rational and R is not vol)
     ctx.check_true('construct.sizes_degrees', [R.ctrlpts_size_u, R.ctrlpts_size_v, R.ctrlpts_size_w] == sizes and
